@@ -1,0 +1,15 @@
+//go:build verif
+
+package validator
+
+// Contracts for govc (see /verif/DESIGN.md). Comment-only file.
+
+// C01: "type any swallows a whole nested value": depth counting without
+// unsigned underflow; done exactly when the depth returns to zero.
+//@ func (*anyNestedStructure).feed(jsonLexeme)
+//@   props C01
+//@   requires v != nil && (isOpeningEvent(jsonLexeme.lexEventType) || v.depth > 0) && v.depth < 18446744073709551615
+//@   nopanic
+//@   modifies v.depth
+//@   ensures v.depth == old(v.depth) + (isOpeningEvent(jsonLexeme.lexEventType) ? 1 : 0 - 1)
+//@   ensures result1 == (v.depth == 0) && len(result0) == 0
